@@ -12,7 +12,7 @@ dst = Path('/verif/seeded') / sid
 dst.mkdir(parents=True, exist_ok=True)
 shutil.copy(src / f'patch{k}.diff', dst / 'patch.diff')
 shutil.copy(src / f'demo{k}.py', dst / 'demo.py')
-notes = (src / 'NOTES.md').read_text() if (src / 'NOTES.md').exists() else ''
+notes = next(((src / n).read_text() for n in ('NOTES.md', 'NOTES.txt') if (src / n).exists()), '')
 meta = {'property': prop, 'origin': 'independent sub-agent given only the property text and a scratch worktree',
         'needs_to_manifest': needs, 'verified_in_scratch_worktree': verified,
         'files_changed': sorted({l.split(' b/')[1].strip() for l in (dst / 'patch.diff').read_text().splitlines()
